@@ -491,6 +491,12 @@ type c17Audit struct {
 	belowSel   []string // listed deps whose listed version is below the build list's selection
 	missingMod bool
 	twoMajors  bool // two majors of one base path listed, none of them marked default
+	// the root set and the module graph disagree somewhere on the way: the INPUT file lists a
+	// module below the version its own graph selects, or a module that tidy newly lists brings
+	// a requirement that raises (or introduces) a selection nothing else justifies — tidy has
+	// no step that brings roots and graph back into agreement and reloads
+	inputBelow    bool
+	promotedRaise bool
 }
 
 func (a *c17Audit) clean() bool {
@@ -503,8 +509,8 @@ func (a *c17Audit) tag() string {
 	switch {
 	case a.twoMajors:
 		return "two-majors-no-default"
-	case len(a.belowSel) > 0:
-		return "root-below-selected"
+	case len(a.belowSel) > 0 || a.inputBelow || a.promotedRaise:
+		return "roots-graph-inconsistent"
 	case len(a.ambiguous) > 0:
 		return "ambiguous-in-build-list"
 	}
@@ -584,6 +590,49 @@ func (x *c17Ref) audit(deps []c17Dep) *c17Audit {
 	main := &x.u.Main
 	mainDef, two := c17MainDefaults(main, deps)
 	a.twoMajors = two
+	// the input file: a listed version below its own graph's selection
+	inSel, _ := x.buildList(main.Deps)
+	inRoot := map[string]bool{}
+	for _, d := range main.Deps {
+		k := fmt.Sprintf("%s@%d", d.Base.Code(), d.Major)
+		inRoot[k] = true
+		if inSel[k] > d.Rank {
+			a.inputBelow = true
+		}
+	}
+	// newly listed modules: do their requirements change the selection?
+	base := map[string]int{} // selection without the requirements of newly listed modules
+	bump := func(m map[string]int, d c17Dep) {
+		k := fmt.Sprintf("%s@%d", d.Base.Code(), d.Major)
+		if m[k] < d.Rank {
+			m[k] = d.Rank
+		}
+	}
+	for _, d := range deps {
+		bump(base, d)
+		if inRoot[fmt.Sprintf("%s@%d", d.Base.Code(), d.Major)] {
+			if m := x.mods[c17Key(d.Base, d.Major, d.Rank)]; m != nil {
+				for _, e := range m.Deps {
+					bump(base, e)
+				}
+			}
+		}
+	}
+	for _, d := range deps {
+		if inRoot[fmt.Sprintf("%s@%d", d.Base.Code(), d.Major)] {
+			continue
+		}
+		if m := x.mods[c17Key(d.Base, d.Major, d.Rank)]; m != nil {
+			for _, e := range m.Deps {
+				if e.Base.Code() == main.Base.Code() && e.Major == main.Major {
+					continue
+				}
+				if base[fmt.Sprintf("%s@%d", e.Base.Code(), e.Major)] < e.Rank {
+					a.promotedRaise = true
+				}
+			}
+		}
+	}
 	used := map[string]bool{}
 	type item struct {
 		imp c17Imp
@@ -884,7 +933,7 @@ var c17WitnessList = []struct{ name, code, want string }{
 	// t.test/m lists only t.test/a; a's packages import b/x and c/x, a requires b v0.1.0 and
 	// c v0.1.0; c v0.1.0 requires b v0.2.0.  The input file is consistent (b is not in c's
 	// pruned view); the tidied file lists b v0.1.0 although its own graph selects b v0.2.0.
-	{"root-below-selected", "8.5@0#8.1@0=3#8.5.10>8.1.10 8.1@0=3#8.2@0=3,8.3@0=3#8.1.10>8.2.10,8.3.10|8.2@0=3#-#8.2.10>-|8.2@0=5#-#8.2.10>-|8.3@0=3#8.2@0=5#8.3.10>-",
+	{"roots-graph-inconsistent", "8.5@0#8.1@0=3#8.5.10>8.1.10 8.1@0=3#8.2@0=3,8.3@0=3#8.1.10>8.2.10,8.3.10|8.2@0=3#-#8.2.10>-|8.2@0=5#-#8.2.10>-|8.3@0=3#8.2@0=5#8.3.10>-",
 		"ok 8.1@0=3,8.2@0=3,8.3@0=3"},
 	// a/x is imported without a major version (resolved by "the only major of t.test/a among
 	// the roots"), a/y@v1 is reached through b's requirement on a@v1: both majors become roots,
@@ -924,6 +973,16 @@ func c17Witnesses(c *Cfg) {
 
 func runC17(c *Cfg) {
 	r := NewRng(c.Seed)
+	if fn := os.Getenv("C17_UNIVERSES"); fn != "" {
+		// replay mode: one universe text per line (as printed in replays/*.json)
+		data, _ := os.ReadFile(fn)
+		for _, line := range strings.Split(string(data), "\n") {
+			if line = strings.TrimSpace(line); line != "" {
+				c17Case(c, r.Sub(), c17ParseUniverse(line), false)
+			}
+		}
+		return
+	}
 	c17Witnesses(c)
 	n := c.Pick(1500, 40000)
 	if c.Focus {
@@ -946,7 +1005,7 @@ func runC17(c *Cfg) {
 			}
 		}()
 	}
-	deadline := time.Now().Add(time.Duration(c.Pick(55, 900)) * time.Second)
+	deadline := time.Now().Add(time.Duration(c.Pick(55, 720)) * time.Second)
 	for i := 0; i < n && time.Now().Before(deadline); i++ {
 		sub := r.Sub()
 		maxMods, maxVers := 6, 3
